@@ -61,6 +61,7 @@ func (x *Exec) verify(con *Contract) (fres *FuncResult) {
 	x.aborted = ""
 	x.visitedBlocks = map[*ssa.BasicBlock]bool{}
 	x.sinkHit = map[string]bool{}
+	x.seenCalls = map[string]bool{}
 	x.instrs = 0
 	x.lastArgs = map[string]*Val{}
 	x.maxPaths = 4096
@@ -222,6 +223,17 @@ func (x *Exec) verify(con *Contract) (fres *FuncResult) {
 	})
 	if returns == 0 && !con.has("noreturn") && x.aborted == "" {
 		fres.Vacuous = "no feasible path reaches a return"
+	}
+	// a clause that counts a call which the function never makes under that name says nothing
+	// (typically a misspelt name): noted in the evidence, printed by strict runs
+	if x.aborted == "" {
+		for _, cl := range con.Clauses {
+			for _, m := range reCallName.FindAllStringSubmatch(cl.Text, -1) {
+				if n := canonCall(m[2]); !x.seenCalls[n] {
+					x.note("call name never counted in " + shortKey(con.Key()) + ": " + n + " (clause " + cl.ID + ")")
+				}
+			}
+		}
 	}
 	// a sink clause guards nothing if no feasible path calls the callee it names
 	if x.aborted == "" && fres.Vacuous == "" {
